@@ -43,9 +43,29 @@ impl Display for CompoundKind {
     }
 }
 
-#[derive(Debug, Eq, PartialEq, Clone, Default)]
+#[derive(Eq, PartialEq, Clone, Default)]
 pub struct Bind {
     bound_generics: HashMap<Identifier, Arc<XType>>,
+}
+
+// types are rendered into error messages with `{:?}`: the rendering may not depend on the
+// iteration order of a hash map
+impl Debug for Bind {
+    fn fmt(&self, f: &mut Formatter<'_>) -> std::fmt::Result {
+        let mut entries = self.bound_generics.iter().collect::<Vec<_>>();
+        entries.sort_by_cached_key(|(k, _)| format!("{k:?}"));
+        f.debug_struct("Bind")
+            .field("bound_generics", &DebugEntries(entries))
+            .finish()
+    }
+}
+
+struct DebugEntries<'a>(Vec<(&'a Identifier, &'a Arc<XType>)>);
+
+impl Debug for DebugEntries<'_> {
+    fn fmt(&self, f: &mut Formatter<'_>) -> std::fmt::Result {
+        f.debug_map().entries(self.0.iter().copied()).finish()
+    }
 }
 
 impl Bind {
@@ -95,12 +115,23 @@ where
     }
 }
 
-#[derive(Clone, Debug, Eq, PartialEq)]
+#[derive(Clone, Eq, PartialEq)]
 pub struct XCompoundSpec {
     pub(crate) name: Identifier,
     pub(crate) generic_names: Vec<Identifier>,
     pub(crate) fields: Vec<XCompoundFieldSpec>,
     pub(crate) indices: HashMap<Identifier, usize>,
+}
+
+// `indices` is derived from `fields`; leaving it out keeps the rendering deterministic
+impl Debug for XCompoundSpec {
+    fn fmt(&self, f: &mut Formatter<'_>) -> std::fmt::Result {
+        f.debug_struct("XCompoundSpec")
+            .field("name", &self.name)
+            .field("generic_names", &self.generic_names)
+            .field("fields", &self.fields)
+            .finish()
+    }
 }
 
 impl XCompoundSpec {
